@@ -279,6 +279,10 @@ class Path:
         memo[key] = (r, stamp, cond)
         return r
 
+    def entails_any(self, cond):
+        """entailment by the incremental solvers, else by the sliced / purified non-linear procedure"""
+        return self.entails(cond) or self.entails_sliced(cond)
+
     def entails_sliced(self, cond, timeout_ms=4000):
         import time
 
@@ -455,23 +459,47 @@ def nia_portfolio(assertions, budget_ms=4000):
     import time
 
     t0 = time.time()
-    attempt = 0
-    slices = [300, 300, 600, 600, 1200, 1200, 2400]
-    while (time.time() - t0) * 1000 < budget_ms and attempt < len(slices):
-        ctx = z3.Context()
-        s = z3.Solver(ctx=ctx)
-        s.set("timeout", slices[attempt])
-        s.set("random_seed", attempt)
-        s.set("smt.random_seed", attempt)
-        s.set("smt.arith.random_initial_value", attempt % 2 == 1)
-        for f in assertions:
-            s.add(f.translate(ctx))
-        r = s.check()
-        if r == z3.unsat:
-            return z3.unsat
-        if r == z3.sat:
-            return z3.sat
-        attempt += 1
+    # z3's non-linear integer procedure is sensitive to the state of the process (term numbering, earlier queries):
+    # the same problem is instant in a fresh process and times out inside a long-running one. The problem is therefore
+    # printed and decided by the z3 command-line binary of the same version, one fresh process per query.
+    import subprocess
+    import sys
+    import tempfile
+
+    s0 = z3.Solver()
+    s0.add(assertions)
+    text = s0.to_smt2()
+    exe = None
+    for cand in (_os.path.join(_os.path.dirname(sys.executable), "z3"), "/usr/local/bin/z3-new", "/usr/bin/z3"):
+        if _os.path.exists(cand):
+            exe = cand
+            break
+    if exe is not None:
+        with tempfile.NamedTemporaryFile("w", suffix=".smt2", delete=False) as fh:
+            fh.write(text)
+            name = fh.name
+        try:
+            for seed in (0, 7):
+                left = budget_ms / 1000.0 - (time.time() - t0)
+                if left <= 0.2:
+                    break
+                try:
+                    out = subprocess.run([exe, f"-T:{max(1, int(min(left, budget_ms / 2000.0 + 1)))}", f"smt.random_seed={seed}", name],
+                                         capture_output=True, text=True, timeout=left + 2).stdout.strip().splitlines()
+                except subprocess.TimeoutExpired:
+                    out = []
+                verdict = out[0].strip() if out else "unknown"
+                if _DEBUG:
+                    print(f"[nia] {exe} seed={seed} -> {verdict} {time.time() - t0:.2f}s")
+                if verdict == "unsat":
+                    return z3.unsat
+                if verdict == "sat":
+                    return z3.sat
+        finally:
+            try:
+                _os.unlink(name)
+            except OSError:
+                pass
     return z3.unknown
 
 
